@@ -5,7 +5,11 @@
    Cycle abstraction of the event scheduler for synchronous designs: set inputs, settle the continuous
    assignments / @* processes to their fixpoint, run every posedge process of the (single) clock with
    blocking assignments immediate and non-blocking ones queued, apply the queue, settle.
-   Out of model (elaboration returns an error): memories, x/z, delays, derived or gated clocks, negedge.
+   Memories (`reg [w-1:0] m [0:d-1]`) are elaborated into d word nets (power-up 0, as the Python `[0]*d`): a word read m[i] is the
+   selection chain (i == 0) ? m0 : (i == 1) ? m1 : ... : m(d-1) (an index beyond the depth, x in Verilog, reads the last word: the
+   emitted memories have depth 2^(address width) or an index reduced modulo the depth) and a word write m[i] = e / m[i] <= e is
+   `if (i == 0) m0 = e; if (i == 1) m1 = e; ...` (at most one fires; the emitted index never depends on the written word).
+   Out of model (elaboration returns an error): x/z, delays, derived or gated clocks, negedge.
    NO PROOFS in this file. *)
 From V Require Import Base.PyInt Model.VSyntax.
 Local Open Scope string_scope.
@@ -218,7 +222,20 @@ Definition vstep (f : flat) (clk : option nat) (env : list Z) (ins : list (nat *
   vcycles f clk n e1 ok1.
 
 (* ---------------------------------------------------------------- elaboration (flattening with renaming) *)
-Inductive binding := BNet (i : nat) (w : Z) (sg : bool) | BParam (v : Z).
+Inductive binding := BNet (i : nat) (w : Z) (sg : bool) | BParam (v : Z) | BMem (base : nat) (w : Z) (depth : nat).
+
+(* word k, k+1, ..., k+n of a memory whose first word is net `base` *)
+Fixpoint mem_read (base : nat) (w : Z) (k n : nat) (idx : rexpr) : rexpr :=
+  match n with
+  | O => RId (base + k) w false
+  | S n' => RCond (RBin BEq idx (RNum (Z.of_nat k))) (RId (base + k) w false) (mem_read base w (S k) n' idx)
+  end.
+Fixpoint mem_write (nb : bool) (base : nat) (w : Z) (k n : nat) (idx e : rexpr) : rstmt :=
+  match n with
+  | O => RSkip
+  | S n' => RSeq (RIf (RBin BEq idx (RNum (Z.of_nat k))) ((if nb then RNba else RBlk) (RLId (base + k) w) e) RSkip)
+                 (mem_write nb base w (S k) n' idx e)
+  end.
 Definition scope := list (string * binding).
 
 Fixpoint lookup (sc : scope) (x : string) : option binding :=
@@ -226,10 +243,13 @@ Fixpoint lookup (sc : scope) (x : string) : option binding :=
 
 Fixpoint res_expr (sc : scope) (e : expr) : option rexpr :=
   match e with
-  | EId x => match lookup sc x with Some (BNet i w sg) => Some (RId i w sg) | Some (BParam v) => Some (RNum v) | None => None end
+  | EId x => match lookup sc x with Some (BNet i w sg) => Some (RId i w sg) | Some (BParam v) => Some (RNum v) | _ => None end
   | ENum n => Some (RNum n)
   | ESized w n => Some (RSized w n)
-  | EBit x i => match lookup sc x, res_expr sc i with Some (BNet k w _), Some i' => Some (RBit k w i') | _, _ => None end
+  | EBit x i => match lookup sc x, res_expr sc i with
+               | Some (BNet k w _), Some i' => Some (RBit k w i')
+               | Some (BMem base w (S n)), Some i' => Some (mem_read base w 0 n i')
+               | _, _ => None end
   | EPart x hi lo => match lookup sc x with Some (BNet k w _) => Some (RPart k hi lo) | _ => None end
   | EUn o a => option_map (RUn o) (res_expr sc a)
   | EBin o a b => match res_expr sc a, res_expr sc b with Some a', Some b' => Some (RBin o a' b') | _, _ => None end
@@ -246,13 +266,28 @@ Definition res_lval (sc : scope) (l : lval) : option rlval :=
   | LIdx x i => match lookup sc x, res_expr sc i with Some (BNet k w _), Some i' => Some (RLIdx k w i') | _, _ => None end
   end.
 
+(* a write to a memory word (the l-value did not resolve to a net) *)
+Definition res_mem_write (sc : scope) (nb : bool) (l : lval) (e' : rexpr) : option rstmt :=
+  match l with
+  | LIdx x i => match lookup sc x, res_expr sc i with
+                | Some (BMem base w depth), Some i' => Some (mem_write nb base w 0 depth i' e')
+                | _, _ => None end
+  | _ => None
+  end.
+
 Fixpoint res_stmt (sc : scope) (s : stmt) : option rstmt :=
   match s with
   | SSkip => Some RSkip
   | SSeq a b => match res_stmt sc a, res_stmt sc b with Some a', Some b' => Some (RSeq a' b') | _, _ => None end
   | SIf c t e => match res_expr sc c, res_stmt sc t, res_stmt sc e with Some c', Some t', Some e' => Some (RIf c' t' e') | _, _, _ => None end
-  | SBlk l e => match res_lval sc l, res_expr sc e with Some l', Some e' => Some (RBlk l' e') | _, _ => None end
-  | SNba l e => match res_lval sc l, res_expr sc e with Some l', Some e' => Some (RNba l' e') | _, _ => None end
+  | SBlk l e => match res_lval sc l, res_expr sc e with
+                | Some l', Some e' => Some (RBlk l' e')
+                | None, Some e' => res_mem_write sc false l e'
+                | _, _ => None end
+  | SNba l e => match res_lval sc l, res_expr sc e with
+                | Some l', Some e' => Some (RNba l' e')
+                | None, Some e' => res_mem_write sc true l e'
+                | _, _ => None end
   end.
 
 Fixpoint find_module (d : design) (name : string) : option vmodule :=
@@ -281,6 +316,11 @@ Fixpoint declare (prefix : string) (items : list item) (sc : scope) (acc : eflat
   | IReg x w init :: t => let '(acc', i) := add_net acc (mk_net (String.append prefix x) w false (match init with Some v => v | None => 0 end) true) in
                           declare prefix t ((x, BNet i w false) :: sc) acc'
   | IInteger x :: t => let '(acc', i) := add_net acc (mk_net (String.append prefix x) 32 true 0 true) in declare prefix t ((x, BNet i 32 true) :: sc) acc'
+  | IMem x w depth :: t =>
+      let '(nets, asg, procs) := acc in
+      let n := Z.to_nat depth in
+      let cells := repeat (mk_net (String.append prefix (String.append x "[]")) w false 0 true) n in
+      declare prefix t ((x, BMem (length nets) w n) :: sc) (nets ++ cells, asg, procs)
   | _ :: t => declare prefix t sc acc
   end.
 
@@ -310,7 +350,7 @@ Fixpoint elab_items (fuel : nat) (prefix : string) (items : list item) (sc : sco
       let k acc' := elab_items fuel' prefix t sc acc' in
       match it with
       | IWire _ _ | IReg _ _ _ | IInteger _ => elab_items fuel' prefix t sc acc
-      | IMem x _ _ => inl (ErrUnsupported (String.append "memory " x))
+      | IMem _ _ _ => elab_items fuel' prefix t sc acc
       | IAssign l e =>
           match res_lval sc l, res_expr sc e with
           | Some l', Some e' => let '(nets, asg, procs) := acc in k (nets, asg ++ [(l', e')], procs)
